@@ -582,3 +582,24 @@ Theorem stored_label_decoder_needs_a_consuming_quoted_prefix : forall n k o,
   ~ ReadLabelDoc.loop_run ReadLabelDoc.qp_nothing ReadLabelDoc.VMain ReadLabelDoc.one_quote n k o.
 Proof. exact ReadLabelDocProofs.decoder_needs_a_consuming_quoted_prefix. Qed.
 Print Assumptions stored_label_decoder_needs_a_consuming_quoted_prefix.
+
+(* ---- round 8, second item: fastFill, the doubling loop the goroutine of FixPeriodPlanner (no recover, no deadline) runs for
+   every entry (model/ReadFastFill.v; ReadPath.fix_entry held of it only `v[0]` on an empty slice). Slice = list, v[0] = val and
+   v[l:] with their panics explicit, the loop a relation WITHOUT fuel. For EVERY non-empty slice of cells of any type: fastFill
+   ends after k rounds with 2^k < 2 len(v), does not panic, leaves every cell holding val -- and that is its only run. *)
+From Qryn Require model.ReadFastFill proofs.ReadFastFillProofs.
+Theorem fast_fill_ends_without_a_panic_on_every_nonempty_slice : forall (A : Type) (v : list A) (x : A), v <> [] ->
+  exists k, ReadFastFill.fast_fill_run v x k (Some (repeat x (List.length v))) /\ (2 ^ k < 2 * List.length v)%nat /\
+            forall k' o', ReadFastFill.fast_fill_run v x k' o' -> k' = k /\ o' = Some (repeat x (List.length v)).
+Proof. exact (@ReadFastFillProofs.fast_fill_total). Qed.
+Print Assumptions fast_fill_ends_without_a_panic_on_every_nonempty_slice.
+
+(* The hypothesis is needed -- on an empty slice every run is a panic (the crash of seeded change C12-h: the planner's guard
+   `idxTo < 0 || idxFrom >= len(values)` without its first disjunct hands values[0:0] over; with the guard the slice has at least
+   one cell: no_fault_in_unrecovered_code_partial) -- and so is the doubling: with a step that leaves l where it is the loop on
+   two cells runs out of every fuel. Non-trivial runs: ReadFastFillProofs.fast_fill_five_cells (3 rounds). *)
+Theorem fast_fill_needs_a_cell_and_a_growing_step :
+  (forall (A : Type) (x : A) k o, ReadFastFill.fast_fill_run [] x k o -> k = 0%nat /\ o = None) /\
+  (forall fuel (v : list nat), List.length v = 2%nat -> ReadFastFill.ff_exec (fun l => l) fuel v 1 = None).
+Proof. split; [exact (@ReadFastFillProofs.fast_fill_on_an_empty_slice_panics) | exact ReadFastFillProofs.fast_fill_needs_a_growing_step]. Qed.
+Print Assumptions fast_fill_needs_a_cell_and_a_growing_step.
